@@ -319,6 +319,18 @@ func c15Run[T any](c *c15ctx, v, pre, otherVal T, plain any, hasPlain bool, isOp
 			r.Violate("record-changed-at-rest:"+c.name, "%s: the bytes MarshalJSON returned for %v were %s and read %s after later MarshalJSON calls on other values", c.name, v, snapshot, atRest)
 			return
 		}
+		// the store owns the block it was handed and may overwrite it in place (encrypt, pad, recycle): a later
+		// MarshalJSON of the same value must not be affected (no encoding may alias shared state)
+		for i := range atRest {
+			atRest[i] = '#'
+		}
+		again, err := mv.MarshalJSON()
+		again = append([]byte(nil), again...)
+		copy(atRest, snapshot) // put the block back: if it did alias shared state, later runs and replays must not inherit the damage
+		if err != nil || !bytes.Equal(again, snapshot) {
+			r.Violate("record-changed-at-rest:"+c.name, "%s: after the store overwrote the block MarshalJSON had returned (%s), MarshalJSON of the same value gives %q (err %v)", c.name, snapshot, again, err)
+			return
+		}
 		var viaStd, viaOwn bytes.Buffer
 		if json.Compact(&viaStd, rec) == nil && json.Compact(&viaOwn, snapshot) == nil && !bytes.Equal(viaStd.Bytes(), viaOwn.Bytes()) {
 			r.Violate("encoding-differs:"+c.name, "%s: MarshalJSON gives %s, json.Marshal gives %s", c.name, snapshot, rec)
